@@ -632,7 +632,9 @@ def focus_families(new_sites):
         f = s["file"]
         if "preview/" in f or "output.rs" in f:
             fams |= {"plan", "search", "rename", "paths"}
-        elif "lock.rs" in f or "history.rs" in f or "id_resolver" in f or "undo.rs" in f:
+        elif "undo.rs" in f:
+            fams |= {"state", "plan_apply", "rename", "stale_redo"}
+        elif "lock.rs" in f or "history.rs" in f or "id_resolver" in f:
             fams |= {"state", "plan_apply", "rename"}
         elif "apply.rs" in f:
             fams |= {"stale_tree", "stale_plan", "plan_apply"}
